@@ -5,7 +5,9 @@ package main
 import (
 	"bytes"
 	"context"
+	"encoding/base64"
 	"encoding/json"
+	"flag"
 	"fmt"
 	"go/parser"
 	"go/types"
@@ -54,10 +56,13 @@ func (e *Engine) replay(fr *FuncResult, r oblResult, outDir string) (verdict, ou
 	return "not-replayable", "no replay adapter for " + calleeShort(fr.Key), ""
 }
 
+// lastReplayTest: the test source as it was run (with the self-describing header), for the replay file.
+var lastReplayTest string
+
 type replayAdapter struct {
 	search bool // finds inputs by a small-scope search of its own: does not need the solver's model
 	match  func(key string) bool
-	run   func(e *Engine, fr *FuncResult, r oblResult, outDir string) (string, string, string)
+	run    func(e *Engine, fr *FuncResult, r oblResult, outDir string) (string, string, string)
 }
 
 var replayAdapters []replayAdapter
@@ -136,6 +141,13 @@ func runReplayTest(repo, pkgDir, testSrc, outDir string) (string, string) {
 // runReplayTestExtra also injects further files (repository-relative path -> content), e.g. a shim that makes an
 // unexported package-level constant of another package readable by the generated test. Nothing is written to the repository.
 func runReplayTestExtra(repo, pkgDir, testSrc, outDir string, extra map[string]string) (string, string) {
+	// self-describing: `govc replayfile` re-runs a replay from the test source alone
+	hdr := "// govc-replay-pkg: " + pkgDir + "\n"
+	for _, rel := range sortedKeys(extra) {
+		hdr += "// govc-replay-extra: " + rel + " " + base64.StdEncoding.EncodeToString([]byte(extra[rel])) + "\n"
+	}
+	testSrc = hdr + testSrc
+	lastReplayTest = testSrc
 	testFile := filepath.Join(outDir, "govc_replay_test.go")
 	os.WriteFile(testFile, []byte(testSrc), 0o644)
 	ov := map[string]map[string]string{"Replace": {filepath.Join(repo, pkgDir, "govc_replay_test.go"): testFile}}
@@ -189,4 +201,61 @@ func searchReplayable(key string) bool {
 		}
 	}
 	return false
+}
+
+// cmdReplayFile re-runs the replay recorded in a replay file written by `govc check` against a repository.
+func cmdReplayFile(args []string) {
+	fs := flag.NewFlagSet("replayfile", flag.ExitOnError)
+	repo := fs.String("repo", "/repo", "repository")
+	file := fs.String("file", "", "replay file (JSON written by govc check)")
+	fs.Parse(args)
+	b, err := os.ReadFile(*file)
+	if err != nil {
+		fmt.Fprintln(os.Stderr, err)
+		os.Exit(2)
+	}
+	var rep map[string]interface{}
+	if err := json.Unmarshal(b, &rep); err != nil {
+		fmt.Fprintln(os.Stderr, err)
+		os.Exit(2)
+	}
+	fmt.Println("obligation:", rep["obligation"])
+	test, _ := rep["replay_test"].(string)
+	if test == "" {
+		fmt.Println("no generated test in this replay file (no-failing-input-found); solver verdict:", rep["solver_status"], "-", rep["solver_detail"])
+		if e, ok := rep["error"]; ok {
+			fmt.Println("reason:", e)
+		}
+		os.Exit(1)
+	}
+	pkgDir := "."
+	extra := map[string]string{}
+	for _, l := range strings.Split(test, "\n") {
+		if strings.HasPrefix(l, "// govc-replay-pkg: ") {
+			pkgDir = strings.TrimPrefix(l, "// govc-replay-pkg: ")
+		}
+		if strings.HasPrefix(l, "// govc-replay-extra: ") {
+			f := strings.Fields(strings.TrimPrefix(l, "// govc-replay-extra: "))
+			if len(f) == 2 {
+				if c, err := base64.StdEncoding.DecodeString(f[1]); err == nil {
+					extra[f[0]] = string(c)
+				}
+			}
+		}
+	}
+	dir, _ := os.MkdirTemp("", "govc-replay")
+	defer os.RemoveAll(dir)
+	// strip the header: runReplayTestExtra adds it again
+	var body []string
+	for _, l := range strings.Split(test, "\n") {
+		if !strings.HasPrefix(l, "// govc-replay-") {
+			body = append(body, l)
+		}
+	}
+	verdict, out := runReplayTestExtra(*repo, pkgDir, strings.Join(body, "\n"), dir, extra)
+	fmt.Println(out)
+	fmt.Println("replay verdict:", verdict)
+	if verdict == "confirmed" {
+		os.Exit(1)
+	}
 }
